@@ -46,8 +46,40 @@ def prism_from_polygon(poly, tris, h=1.0):
     return np.array(v, float), np.array(faces)
 
 
+def frame_mesh(h=0.6):
+    """a square ring (box with a rectangular through-hole): closed, connected, genus 1 (V - E + F = 0), outward oriented"""
+    ring = lambda r: [(-r, -r), (r, -r), (r, r), (-r, r)]
+    v = [(x, y, z) for z in (0.0, h) for r in (1.0, 0.5) for x, y in ring(r)]   # 0-3 outer bottom, 4-7 inner bottom, 8-11, 12-15 top
+    v = np.array(v, float) * (1.0, 1.1, 1.0)
+    faces = []
+    for i in range(4):
+        j = (i + 1) % 4
+        ob, ib, ot, it = 0, 4, 8, 12
+        faces += [(ob + i, ib + j, ob + j), (ob + i, ib + i, ib + j)]            # bottom annulus, normal -z
+        faces += [(ot + i, ot + j, it + j), (ot + i, it + j, it + i)]            # top annulus, normal +z
+        faces += [(ob + i, ob + j, ot + j), (ob + i, ot + j, ot + i)]            # outer wall, normal outwards
+        faces += [(ib + i, it + j, ib + j), (ib + i, it + i, it + j)]            # inner wall, normal into the hole
+    f = np.array(faces)
+    # make the construction's claim true by construction: orient every face by its known outward direction
+    out = []
+    for t in f:
+        a, b, c = v[t]
+        n = np.cross(b - a, c - a)
+        ctr = (a + b + c) / 3
+        if abs(n[2]) > 1e-12:
+            want = 1.0 if ctr[2] > h / 2 else -1.0
+            good = n[2] * want > 0
+        else:
+            radial = np.array((ctr[0], ctr[1], 0.0))
+            inner = max(abs(ctr[0]), abs(ctr[1] / 1.1)) < 0.75
+            good = (np.dot(n, radial) > 0) != inner
+        out.append(tuple(t) if good else (t[0], t[2], t[1]))
+    return v, np.array(out)
+
+
 def meshes():
     M = {}
+    M["frame"] = frame_mesh()
     M["tetra"] = convex_mesh([(0, 0, 0), (1.3, 0, 0), (0.2, 1.1, 0), (0.3, 0.2, 0.9)], [(0, 1, 2), (0, 1, 3), (0, 2, 3), (1, 2, 3)])
     cv = [(x, y, z) for x in (0, 1.0) for y in (0, 1.2) for z in (0, 0.8)]
     cf = [(0, 1, 3), (0, 3, 2), (4, 6, 7), (4, 7, 5), (0, 4, 5), (0, 5, 1), (2, 3, 7), (2, 7, 6), (0, 2, 6), (0, 6, 4), (1, 5, 7), (1, 7, 3)]
@@ -73,7 +105,7 @@ def meshes():
     return M
 
 
-KNOWN_VOLUME = {"chamfer": 1.0 - 0.002 ** 3 / 6, "rod": 0.005 * 0.005 * 1.0, "cube": 1.0 * 1.2 * 0.8, "Lprism": 3.0, "Uprism": 5.0 * 0.7, "prism": 0.5 * 1.4 * 1.1 * 0.9}
+KNOWN_VOLUME = {"frame": (4.0 - 1.0) * 1.1 * 0.6, "chamfer": 1.0 - 0.002 ** 3 / 6, "rod": 0.005 * 0.005 * 1.0, "cube": 1.0 * 1.2 * 0.8, "Lprism": 3.0, "Uprism": 5.0 * 0.7, "prism": 0.5 * 1.4 * 1.1 * 0.9}
 
 
 def signed_volume(v, f):
@@ -247,6 +279,9 @@ def run_derived(c):
         if kind == "disjoint":
             shift = np.array(c["shift"]) * scale
             v_b, f_b = v + shift, f
+            if c.get("mesh_b"):
+                v_b, f_b = M[c["mesh_b"]]
+                v_b = v_b * scale * c.get("scale_b", 1.0) + shift
             truth["disconnected"] = True
         elif kind == "intersecting":
             shift = np.array(c["shift"]) * scale
@@ -429,7 +464,7 @@ def enumerate_cases(tier):
                 cases.append({"part": "orient", "mesh": "tetra", "order": list(order), "flipmask": mask, "renum": list(renum),
                               "field": mask in (3, 15) and order[0] == 2, "full": mask % 5 == 0})
     # other meshes: every face as first face x all flip subsets (2^8) or all subsets for the cube (2^12); orders
-    for name in ("prism", "octa", "cube", "Lprism", "Uprism"):
+    for name in ("prism", "octa", "cube", "Lprism", "Uprism", "frame"):
         v, f = M[name]
         nf, nv = len(f), len(v)
         if nf <= 8:
@@ -443,6 +478,8 @@ def enumerate_cases(tier):
             masks = sorted(set(small + [full ^ m for m in small]))
             if tier == "quick":
                 masks = [m for m in masks if bin(m).count("1") <= 2 or bin(m).count("1") >= nf - 2]
+                if name == "frame":   # all single flips, neighbouring pairs, and their complements
+                    masks = [m for m in masks if bin(m).count("1") <= 1 or bin(m).count("1") >= nf - 1] + [3 << i for i in range(nf - 1)]
         firsts = range(nf) if (nf <= 8 or tier == "thorough") else [0, nf // 2, nf - 1]
         if name == "cube":
             firsts = range(nf) if tier == "thorough" else [0, 5, 11]
@@ -473,7 +510,8 @@ def enumerate_cases(tier):
         v, f = M[name]
         nf, nv = len(f), len(v)
         base = list(range(nf))
-        for where in ([0], [nv // 2], [nv], [1, nv // 2 + 1], [0, nv + 1]):
+        for where in ([0], [nv // 2], [nv], [1, nv // 2 + 1], [0, nv + 1], [0, 1, 2], [0, 1, 2, 3, 4], list(range(9)), [2 * i for i in range(min(6, nv))],
+                      list(range(nv, nv + 7))):
             for kind in ("inside", "far"):
                 for order in (base, base[::-1]):
                     for mask in (0, 1, 5, (1 << nf) - 1):
@@ -484,6 +522,15 @@ def enumerate_cases(tier):
                               "unused": where, "unused_where": "inside", "hull": True})
                 cases.append({"part": "orient", "mesh": name, "order": base, "flipmask": 0, "renum": list(range(nv))[::-1],
                               "unused": where, "unused_where": "inside", "hull": True})
+    # ALL placements of the used vertices among N slots of the vertex array (the other slots hold points no face refers to):
+    # statuses, orientation and field must not depend on which indices the faces use
+    for name, N in ((("tetra", 12), ("octa", 11)) if tier == "quick" else (("tetra", 16), ("octa", 14), ("prism", 12))):
+        v, f = M[name]
+        nf, nv = len(f), len(v)
+        for used in itertools.combinations(range(N), nv):
+            where = [i for i in range(N) if i not in used]
+            cases.append({"part": "orient", "mesh": name, "order": list(range(nf)), "flipmask": 5 if sum(used) % 3 == 0 else 0, "renum": list(range(nv)),
+                          "unused": where, "unused_where": "inside" if sum(used) % 2 else "far", "field": sum(used) % 7 == 0, "full": True})
     for ext in (((0, 0, 0), (1.0, 1.2, 0.8)), ((0, -0.6, -0.4), (0.7, 0.6, 0.4))):
         for via in ("from_mesh", "from_triangles"):
             for shuffle in (False, True):
@@ -521,6 +568,14 @@ def enumerate_cases(tier):
                 for sc in (scales if mask in (0, 5) else [1.0]):
                     cases.append({"part": "derived", "kind": "disjoint", "mesh": name, "shift": [3.1, 0.4, 0.3], "pattern": pattern,
                                   "flipmask": int(mask), "scale": sc, "field": mask % 9 == 1})
+    # a body with a through-hole next to (or with, inside its hole) a simple body: Euler characteristics 0 + 2
+    for a, b, shift, sb in (("frame", "cube", [3.1, 0.4, 0.3], 1.0), ("frame", "tetra", [-0.1, -0.1, 0.1], 0.3), ("cube", "frame", [4.0, 0.2, 0.1], 1.0),
+                            ("frame", "frame", [3.5, 0.2, 0.1], 1.0), ("frame", "octa", [0.0, 0.0, 2.5], 1.0)):
+        nf = len(M[a][1]) + len(M[b][1])
+        for pattern in ("AB", "BA", "alt", "alt2"):
+            for mask in (0, 1, 1 << (nf - 1), (1 << nf) - 1, 5):
+                cases.append({"part": "derived", "kind": "disjoint", "mesh": a, "mesh_b": b, "scale_b": sb, "shift": shift, "pattern": pattern,
+                              "flipmask": int(mask), "scale": 1.0, "field": mask in (0, 5)})
     # interpenetrating copies in general position (a vertex of each strictly inside the other)
     for name in ("tetra", "cube", "octa"):
         for shift in ([0.31, 0.27, 0.22], [0.45, -0.2, 0.13], [-0.28, 0.33, -0.19], [0.2, 0.41, 0.3]):
